@@ -63,6 +63,15 @@ CHECKS = {
               'incomplete encodes (watchdog) and packets after EOS are violations. The ordering mechanism (hierarchical decode order + undisplayed-frame stack => display order) is proved for every depth and length.'),
         note=('The universally quantified claim is proved only for the mechanism model; that picture decision / packetization implement it is observed on the scenarios run (partial). Trusted: Coq kernel, extraction + OCaml driver, '
               'harness/scn/svt_scn.c, watchdog timing. An EOS flag set on a buffer that also carries a picture is outside the stated protocol and not exercised.')),
+    'C02': dict(
+        category='other', design_ref='DESIGN.md §6 C02',
+        technique='Coq-verified OBU / sequence-header parser (soundness lemmas proved) extracted and applied to every packet of real encodes',
+        text=('check_packet (Gallina, written from the AV1 syntax: leb128, OBU header, complete sequence header incl. trailing bits, start of the frame header) is proved to imply: the packet is exactly a sequence of OBUs '
+              'laid end to end, each size field equals its payload length, the first OBU is the only temporal delimiter, exactly one frame is displayed, every sequence header parses completely and equals the reference. '
+              'leb128 round trip is proved for every size < 2^56. The extracted checker runs on every packet of encodes over sizes hitting the byte-boundary cases of the sequence header, key-frame periods, hierarchy depths, '
+              'tiles, multi-byte size fields, open GOP, screen content, 10 bit, VBR, film grain, superres; the stream-header call is compared with the in-band header.'),
+        note=('The property for all inputs is decided only on the scenarios run (partial); the parser is a hand transcription of the AV1 syntax (trusted; cross-checked only by the library\'s own decoder accepting the same '
+              'streams in other checks). Frame headers are parsed only as far as needed to tell displayed frames; tile-group payloads are not parsed.')),
 }
 
 NOT_BUILT_REASON = 'check not built yet in this development (work in progress); no claim is made'
